@@ -1,6 +1,6 @@
 SPECIFICATION TSpec
 CONSTANTS
-  INSTR = {"i1", "i2"}
+  INSTR = {"i1", "i2", "i3"}
   PRICE = {1, 2, 3, 4, 5, 6, 7, 8}
   AMOUNT = {0, 1, 2, 3, 4, 5, 6, 7, 8, 9}
   RULES = {"Spot", "Futures"}
